@@ -26,6 +26,10 @@ extern "C" int LLVMFuzzerTestOneInput(const uint8_t* data, size_t size) {
     Parsed b = parse_message(is_req, msg, fa, cap, '\r', rd, head);      // CR / ':' / digits are the bytes a parser running past the end reacts to
     Parsed b2 = parse_message(is_req, msg, fa, cap, (flags & 4) ? ':' : '7', rd, head);
     if (b2.outcome() != a.outcome() && !(b2.enobufs && a.enobufs)) b = b2;
+    // a re-used buffer that still holds this very message (keep-alive repeat): what follows the received bytes then looks
+    // exactly like the rest of the message
+    Parsed st = parse_message(is_req, msg, fa, cap, 0x00, rd, head, &msg);
+    if (st.outcome() != a.outcome() && !(st.enobufs && a.enobufs)) b = st;
     Parsed c3 = parse_message(is_req, msg, fb, cap, 0x55, rd, head);
     if (c3.bound_hit) vfz::fail("endless loop: recv() called more than 10 x input length + 100 times");
     if (a.bound_hit || b.bound_hit) vfz::fail("endless loop: recv() called more than 10 x input length + 100 times");
@@ -35,6 +39,6 @@ extern "C" int LLVMFuzzerTestOneInput(const uint8_t* data, size_t size) {
     if (a.rc == 0) vfz::nontrivial(data, size, (is_req ? "request " : "response ") + a.start.substr(0, 40) + " headers=" + std::to_string(a.headers.size()) + " body=" + std::to_string(a.body.size()));
     if (a.outcome() != b.outcome())
         vfz::fail("outcome depends on bytes outside the message (same input, same split, different fill of the unused buffer):\n  A(fill 00): " + a.outcome().substr(0, 400) +
-                  "\n  B(fill CR/':'/'7'): " + b.outcome().substr(0, 400));
+                  "\n  B(fill CR/':'/'7' or the same message): " + b.outcome().substr(0, 400));
     return 0;
 }
